@@ -10,6 +10,7 @@
   `i = rank x arr`.
 -/
 import MocVerif.Model.Ranges
+import MocVerif.Model.Cells
 
 namespace Moc
 
@@ -79,6 +80,15 @@ def intersects (l r : List Rng) : Bool :=
 
 /-- `SNORanges::contains(rhs)`: is `rhs ⊆ self`. -/
 def containsAll (l rhs : List Rng) : Bool := rhs.all fun r => containsRange l r
+
+/-- OR of all the bounds (`Ranges::trailing_zeros` folds `res | start | end`). -/
+def orBounds : List Rng → Nat
+  | [] => 0
+  | r :: t => r.1 ||| r.2 ||| orBounds t
+
+/-- `MocRanges::compute_min_depth`: `MAX_DEPTH − min(trailing_zeros(OR of the bounds) / DIM, MAX_DEPTH)`. -/
+def computeMinDepth (q : Qty) (w : Nat) (l : List Rng) : Nat :=
+  q.maxDepth w - min (tz w (orBounds l) / q.dim) (q.maxDepth w)
 
 /-- `RangeMOC::first_index`: start of the first range. -/
 def firstIndex (l : List Rng) : Option Nat := l.head?.map (·.1)
